@@ -611,6 +611,7 @@ EQONLY = {
     "<liquid_lib::stdlib::filters::array::UniqFilter as liquid_core::parser::filter::Filter>::evaluate":
         "uniq drops exactly the elements equal (==) to an earlier kept one",
     "<liquid_lib::stdlib::blocks::case_block::CaseOption>::evaluate": "case/when matches by ==",
+    "<liquid_lib::stdlib::filters::array::WhereFilter as liquid_core::parser::filter::Filter>::evaluate": "where keeps exactly the objects whose property == target",
 }
 FORBID_IDENTITY = ("to_kstr", "render", "source", "to_string", "hash", "type_name")
 FORBID_KIND_DISPATCH = ("as_scalar", "is_scalar", "as_array", "is_array", "as_object", "is_object", "as_state", "is_state", "is_nil",
